@@ -20,6 +20,8 @@
 package asm
 
 import (
+	"strings"
+
 	"github.com/llir/ll/ast"
 	"github.com/llir/llvm/ir"
 	"github.com/llir/llvm/ir/types"
@@ -188,5 +190,10 @@ func localIdentOfValue(v local) ir.LocalIdent {
 	if v.IsUnnamed() {
 		return ir.LocalIdent{LocalID: v.ID()}
 	}
-	return ir.LocalIdent{LocalName: v.Name()}
+	// Note, v.Name() returns numeric names in quoted form (e.g. `"42"`) to
+	// distinguish them from IDs, whereas local variables are indexed by name as
+	// is; thus decode the name from the identifier of the local variable, the
+	// same way uses of the local variable are decoded (e.g. `%"42"`).
+	const prefix = "%"
+	return ir.LocalIdent{LocalName: unquote(strings.TrimPrefix(v.Ident(), prefix))}
 }
